@@ -857,9 +857,61 @@ impl VM {
                 ));
             }
         }
-        // For non-constraint values in constraint position (backward compat),
-        // this is a no-op since typecheck already verified shape compatibility
+        // An exemplar in constraint position. The typechecker verifies the
+        // shape where it can infer it but the result of a call, for one, has
+        // no static shape, so check the value we actually got as well.
+        else if !Self::shape_conforms(constraint.as_ref(), val.as_ref()) {
+            let ir_val: crate::build::ir::Val = val.as_ref().into();
+            let ir_exemplar: crate::build::ir::Val = constraint.as_ref().into();
+            return Err(Error::new(
+                format!(
+                    "Value {} does not have the shape of {}",
+                    ir_val, ir_exemplar
+                )
+                .into(),
+                val_pos,
+            ));
+        }
         Ok(())
+    }
+
+    /// The runtime counterpart of shape narrowing: same primitive type, tuples
+    /// that agree on the fields they share with one field set contained in the
+    /// other, lists where every element of one side has a counterpart on the
+    /// other. NULL conforms to anything and so do the values that have no
+    /// shape at runtime (functions, modules).
+    fn shape_conforms(exemplar: &Value, val: &Value) -> bool {
+        match (exemplar, val) {
+            (P(Empty), _) | (_, P(Empty)) => true,
+            (P(Int(_)), P(Int(_)))
+            | (P(Float(_)), P(Float(_)))
+            | (P(Str(_)), P(Str(_)))
+            | (P(Bool(_)), P(Bool(_))) => true,
+            (C(Tuple(eflds, _)), C(Tuple(vflds, _))) => {
+                let subset = |a: &Vec<(Rc<str>, Rc<Value>)>, b: &Vec<(Rc<str>, Rc<Value>)>| {
+                    a.iter().all(|(k, _)| b.iter().any(|(bk, _)| bk == k))
+                };
+                if !(subset(eflds, vflds) || subset(vflds, eflds)) {
+                    return false;
+                }
+                eflds.iter().all(|(k, ev)| {
+                    vflds
+                        .iter()
+                        .filter(|(vk, _)| vk == k)
+                        .all(|(_, vv)| Self::shape_conforms(ev, vv))
+                })
+            }
+            (C(List(eelems, _)), C(List(velems, _))) => {
+                let covered = |a: &Vec<Rc<Value>>, b: &Vec<Rc<Value>>| {
+                    a.iter()
+                        .all(|x| b.iter().any(|y| Self::shape_conforms(y, x)))
+                };
+                covered(eelems, velems) || covered(velems, eelems)
+            }
+            (P(_), _) | (C(_), _) => false,
+            // Functions, modules and the like are not checked at runtime.
+            _ => true,
+        }
     }
 
     fn op_bind(&mut self, strict: bool) -> Result<(), Error> {
